@@ -124,15 +124,31 @@ static void audit_heap(int t);
 static void check_fresh(void);
 static int untouched(const void *p, size_t n) { const unsigned char *b = p; while (n--) if (*b++ != 0x5A) return 0; return 1; }
 
+/* The node of an element that is not in the heap holds stale bytes (the API takes uninitialised nodes): before every operation it is put back to the
+ * 0x5A garbage the pool starts with, so that a push relying on a link being already set is seen and the content of such nodes is a function of the state. */
+/* plain straight-line callers, compiled with the shipped optimisation level and without any barrier between the calls: what the headers promise about a
+ * function (attributes included) must be true when an ordinary caller asks for the top element before and after a modification */
+static const void *ga1, *ga2; static void *gpop; static size_t gs1, gs2;
+static void __attribute__((noinline)) get_push_get(struct cstl_heap *h, void *e) { ga1 = cstl_heap_get(h); gs1 = cstl_heap_size(h); cstl_heap_push(h, e); ga2 = cstl_heap_get(h); gs2 = cstl_heap_size(h); }
+static void __attribute__((noinline)) get_pop_get(struct cstl_heap *h) { ga1 = cstl_heap_get(h); gs1 = cstl_heap_size(h); gpop = cstl_heap_pop(h); ga2 = cstl_heap_get(h); gs2 = cstl_heap_size(h); }
+static int is_max(int i);
+static int gi(const void *e) { return e ? idx_of(e) : -1; }
+static void scrub_free(void) { int i; for (i = 0; i < N; i++) if (!m_member[i]) memset(&pool[i].hn, 0x5A, sizeof pool[i].hn); }
 static void w_apply(mc_op_t o)
 {
     int a = OA(o), ab = 0, i;
     static void * volatile rp;
+    scrub_free();
     switch (OC(o)) {
     case O_PUSH:
         if (is_max(a) && m_count) { int strictly = 1, j; for (j = 0; j < N; j++) if (m_member[j] && korder(prios[a], prios[j]) <= 0) strictly = 0; if (strictly) MC_COUNT(K_PUSH_NEW_MAX); }
-        SHIM_CALL(ab, cstl_heap_push(&H[0], &pool[a]));
+        SHIM_CALL(ab, get_push_get(&H[0], &pool[a]));
+        if (!ab) {
+            MC_CHECK(PC07, m_count ? (gi(ga1) >= 0 && m_member[gi(ga1)] && is_max(gi(ga1))) : ga1 == NULL, "get before a push does not return a greatest held element (or NULL on the empty heap)");
+            MC_CHECK(PC07, gs1 == (size_t)m_count && gs2 == (size_t)m_count + 1, "size around a push: %zu then %zu, %d elements were held", gs1, gs2, m_count);
+        }
         m_member[a] = 1; m_count++;
+        if (!ab) MC_CHECK(PC07, gi(ga2) >= 0 && m_member[gi(ga2)] && is_max(gi(ga2)), "get directly after a push (same caller, no barrier in between) does not return a greatest held element");
         break;
     case O_POP: {
         int nmax = 0;
@@ -140,14 +156,17 @@ static void w_apply(mc_op_t o)
         if (!m_count) MC_COUNT(K_POP_EMPTY);
         if (nmax > 1) MC_COUNT(K_POP_TIED_MAX);
         if (m_count >= 4) MC_COUNT(K_POP_SIFT);
-        SHIM_CALL(ab, rp = cstl_heap_pop(&H[0]));
+        SHIM_CALL(ab, get_pop_get(&H[0])); rp = gpop;
         if (ab) break;
+        MC_CHECK(PC07, m_count ? (gi(ga1) >= 0 && m_member[gi(ga1)] && is_max(gi(ga1))) : ga1 == NULL, "get before a pop does not return a greatest held element (or NULL on the empty heap)");
+        MC_CHECK(PC07, gs1 == (size_t)m_count && gs2 == (size_t)(m_count ? m_count - 1 : 0), "size around a pop: %zu then %zu, %d elements were held", gs1, gs2, m_count);
         if (!m_count) { MC_CHECK(PC07, rp == NULL, "pop on an empty heap returned a non-NULL pointer"); break; }
         i = rp ? idx_of(rp) : -1;
         MC_CHECK(PC07, rp != NULL && i >= 0 && m_member[i], "pop returned %s, not an element held by the heap", rp ? "a pointer" : "NULL");
         if (i >= 0 && m_member[i]) {
             MC_CHECK(PC07, is_max(i), "pop returned element %d (priority %d) although a greater element is held", i, prios[i]);
             m_member[i] = 0; m_count--;
+            MC_CHECK(PC07, m_count ? (gi(ga2) >= 0 && m_member[gi(ga2)] && is_max(gi(ga2))) : ga2 == NULL, "get directly after a pop (same caller, no barrier in between) does not return a greatest held element (or NULL on the emptied heap)");
         }
         break;
     }
